@@ -568,6 +568,44 @@ func (H) Execute(t *testing.T, plan *simkit.Plan, run *simkit.Run) {
 	// own. Its DAG node links everything that replica knew; whoever later holds
 	// that marker has fetched and merged all of the writer's updates.
 	time.Sleep(10 * time.Second)
+	// Before anything else is written: a batch whose commit failed is kept and
+	// committed again at the next age tick, so two ticks after the datastores were
+	// healed every accepted operation has taken effect on the replica that accepted
+	// it - with no later write to carry it along (the markers below would).
+	if plan.Scenario != "nobatch" && plan.Knob("contended", 0) == 0 && plan.Property == "C02" {
+		time.Sleep(2*time.Duration(plan.Knob("batch_age_ms", 1000))*time.Millisecond + time.Second)
+		synctest.Wait()
+		for ci := range w.cids {
+			owner := ci % n
+			if len(w.cids) < n && ci%n != owner {
+				continue
+			}
+			var last *opRec
+			clean := true
+			for _, o := range w.ops {
+				if o.Cid != ci || o.Peer != owner {
+					continue
+				}
+				if o.Accepted {
+					last, clean = o, true
+				} else if !o.QueueErr {
+					clean = false // an attempt after it failed otherwise: outcome unknown
+				}
+			}
+			if last == nil || !clean {
+				continue
+			}
+			st, err := w.stateOf(w.reps[owner])
+			if err != nil {
+				continue
+			}
+			got, has := st[ci]
+			run.Probe("pending_after_heal_checked")
+			if (last.Pin && (!has || got != last.Nonce)) || (!last.Pin && has) {
+				run.Violate("C02/lost_after_commit_failure", "before any later write", "r%d accepted %s (cid%d) as its last operation on that CID; two age ticks after its datastore was healed, and before anything else was written, its pinset has cid%d=%q (present=%v); batching=%s", owner, last.Nonce, ci, ci, got, has, plan.Scenario)
+			}
+		}
+	}
 	for i, r := range w.reps {
 		mp := api.PinCid(simkit.TestCid(100 + i))
 		mp.Name = fmt.Sprintf("marker%d", i)
